@@ -72,12 +72,14 @@ def search(tier, rng):
         yield J('p_rect_offset', *big, rng.choice([rng.randrange(-8, 9), rng.randrange(-2 ** 19, 2 ** 19)]))
         yield J('p_rect_offset', *a, rng.randrange(-12, 13))
 
-LEVEL_TEXT = ('Proof: 24 Coq theorems over the Gallina model of Point/Size/Rectangle (coq/Model/Geometry.v) state that '
-              'intersection is exactly the common point set for ALL rectangles, envelope is the least rectangle containing both, '
+LEVEL_TEXT = ('Proof: 28 Coq theorems over the Gallina model of Point/Size/Rectangle (coq/Model/Geometry.v) state that '
+              'intersection is exactly the common point set (no range hypothesis: every rectangle of the unbounded model), envelope is the least rectangle containing both (zero-sized operands count as 1x1, as documented; plain form for rectangles that have points), '
               'and contains/points/rows/columns/bottom_right/center/with_center/with_corners/anchor_point/resized/offset agree with '
               '"top-left plus size" for every rectangle within +-2^29. The model is tied to the code by running the extracted model '
               'and the real methods on the same inputs (exhaustive grid pairs + random up to 2^20) on every run.')
 LEVEL_NOTE = ('Trusted: Coq kernel, extraction (ExtrOcamlBasic), the OCaml/Rust drivers; the hand-written model is validated by '
-              'differential testing, not proved equal to the Rust code; arithmetic is unbounded Z, theorems carry the range +-2^29.')
+              'differential testing, not proved equal to the Rust code; arithmetic is unbounded Z, theorems carry the range +-2^29. '
+              'offset by n on a ZERO extent does not move "sides" by n: it yields the 2n wide range starting n-1 before the old position '
+              '(C16_offset_grow_axis states exactly that; the property clause "every side moves by n" is claimed for extents > 0).')
 
 CLAIMED = True
